@@ -4,6 +4,7 @@ import re
 from mir import Terms, parse_callee, show, op_place, op_const, place_proj, subterms, subst
 from flow import format_calls, template_text, root_of_operand, body_is_external
 from grammar import Grammar, Hole, tokenize, TokenMatcher, arm_accepts, find_nodes
+from strsyn import StrSyn, NotSynthesisable
 
 META = {
     "engine": "mirfacts+srcfacts+rules",
@@ -31,12 +32,12 @@ META = {
 
 
 def find_writer(F):
-    """bodies in cgt_core that switch exhaustively on Operation<CurrencyAmount> and format in (almost) every arm"""
+    """bodies in cgt_core that return a String and switch exhaustively on Operation<CurrencyAmount> (≥ 7 arms), from which
+    format templates are reachable (in the body itself or in the helpers it calls)"""
     out = []
     for b in F.bodies.values():
-        if b.crate != "cgt_core" or b.kind != "fn" or F.is_derive(b) or "String" not in b.ret:
+        if b.crate != "cgt_core" or b.kind != "fn" or F.is_derive(b) or b.ret != "alloc::string::String":
             continue
-        tb = None
         for i, t in b.terms_of_kind("switch"):
             if len(t["targets"]) < 7:
                 continue
@@ -49,7 +50,11 @@ def find_writer(F):
                 ty = b.local_ty(src["l"])
                 if "Operation<cgt_money::amount::CurrencyAmount>" in ty:
                     nfmt = sum(1 for _ in format_calls(F, b))
-                    if nfmt >= 7:
+                    for _, u in b.calls():
+                        hb = F.bodies.get(u["callee"])
+                        if hb is not None and hb.crate == "cgt_core" and not F.is_derive(hb):
+                            nfmt += sum(1 for _ in format_calls(F, hb))
+                    if nfmt >= 3:
                         out.append((b, i, t))
     return out
 
@@ -77,7 +82,8 @@ def hole_of(F, b, part):
         return [Hole("text", term, f"date printed with {fmt!r}")]
     if "rust_decimal::decimal::Decimal" in ty:
         return [Hole("decimal" if not lossy else "text", term, "decimal" if not lossy else f"decimal with options {opts}")]
-    if ty.endswith("str") or ty == "&str" or ty == "&&str":
+    if (ty.endswith("str") or ty == "&str" or ty == "&&str") and not (
+            isinstance(term, tuple) and term and term[0] in ("field",) and term[2] in ("ticker", "symbol")):
         # CurrencyAmount::code() or a constant
         if isinstance(term, tuple) and term and term[0] == "call" and term[1].endswith("CurrencyAmount::code"):
             return [Hole("code", term[2][0], "currency code")]
@@ -86,6 +92,16 @@ def hole_of(F, b, part):
         if isinstance(term, tuple) and term and term[0] == "param":
             return [Hole("param", term, term[2])]
         return [Hole("text", term, "str")]
+    if "alloc::string::String" in ty or ty.endswith("str"):
+        inner = term
+        while isinstance(inner, tuple) and inner and inner[0] == "call" and parse_callee(inner[1])[2] in ("to_string", "to_owned", "clone", "as_str") and len(inner[2]) == 1:
+            inner = inner[2][0]
+        if isinstance(inner, tuple) and inner and inner[0] == "call" and inner[1].endswith("NaiveDate::format") and len(inner[2]) == 2:
+            if inner[2][1] == ("str", "%Y-%m-%d"):
+                return [Hole("date", inner[2][0], "date")]
+            return [Hole("text", term, f"date printed with {inner[2][1]!r}")]
+        if isinstance(inner, tuple) and inner and inner[0] == "field" and inner[2] in ("ticker", "symbol"):
+            return [Hole("ticker", inner, "ticker")]
     if "alloc::string::String" in ty:
         if isinstance(term, tuple) and term and term[0] == "field" and term[2] in ("ticker", "symbol"):
             return [Hole("ticker", term, "ticker")]
@@ -116,6 +132,44 @@ def hole_of(F, b, part):
             return [Hole("param", term, term[2])]
         return [Hole("text", term, "String")]
     return [Hole("text", term, ty)]
+
+
+def synth_writer(F, b, sw):
+    """{variant index: [(parts as str|Hole, guards)]} — every string the writer can return, per Operation variant, obtained
+    by symbolic string synthesis over the writer and its helpers (strsyn)"""
+    syn = StrSyn(F)
+    res = syn.returns(b)
+    tb = Terms(F, b, inline_depth=0)
+    dterm = tb.operand(sw["discr"])
+    out = {}
+    seen = set()
+    for r in res:
+        vi = None
+        for cnd, val in r["guards"]:
+            if cnd == dterm and isinstance(val, str) and val.lstrip("-").isdigit():
+                vi = int(val)
+        if vi is None or r["parts"] is None:
+            continue
+        parts = []
+        for p in r["parts"]:
+            if p[0] == "lit":
+                if p[1]:
+                    parts.append(p[1])
+            else:
+                parts += hole_of(F, b, p)
+        # adjacent literals are one piece of text
+        merged = []
+        for p in parts:
+            if isinstance(p, str) and merged and isinstance(merged[-1], str):
+                merged[-1] += p
+            else:
+                merged.append(p)
+        key = (vi, tuple(p if isinstance(p, str) else (p.kind, p.term) for p in merged))
+        if key in seen:
+            continue
+        seen.add(key)
+        out.setdefault(vi, []).append((merged, r["guards"]))
+    return out
 
 
 def arm_strings(F, b, tb, entry, others):
@@ -198,10 +252,8 @@ def _variant_field_name(term):
 def writer_vs_grammar(ctx, rep):
     F, S = ctx.F, ctx.S
     g = Grammar(S["grammar"])
-    cons = {}
-    for f in S["rust"]:
-        for fn in f.get("fns", []):
-            cons[fn["name"]] = fn
+    from grammar import consumers
+    cons = consumers(S)
     ws = find_writer(F)
     if len(ws) != 1:
         rep.unresolved("R1", "WRITER", f"{len(ws)} exhaustive Operation→format! writers found in cgt_core")
@@ -217,17 +269,29 @@ def writer_vs_grammar(ctx, rep):
     tm = TokenMatcher(g)
     rep.count("writer", b.short)
     rep.count("writer_arms", len(entries))
+    try:
+        synth = synth_writer(F, b, t)
+    except NotSynthesisable as e:
+        rep.unresolved("R1", "writer-strings", f"the writer's output cannot be synthesised: {e}")
+        return
     for vi, entry in sorted(entries.items()):
         vname = vnames[vi] if vi < len(vnames) else f"#{vi}"
-        res = arm_strings(F, b, tb, entry, list(entries.values()))
-        if res is None:
-            rep.ob("R1", f"{vname}:template", False, "no format! in this arm", b.loc(), key=f"R1:{vname}:no-template")
+        alts = synth.get(vi)
+        if not alts:
+            rep.ob("R1", f"{vname}:template", False, "no string is produced in this arm", b.loc(), key=f"R1:{vname}:no-template")
             continue
-        base, suffixes = res
-        variants_out = [("without optional clause", parts_of(F, b, base), None)]
-        for fc, guard in suffixes:
-            sp = parts_of(F, b, fc)
-            variants_out.append(("with optional clause", parts_of(F, b, base) + sp, (fc, guard, sp)))
+        base = {"site": b.loc(b.term(entry).get("sp") or t["sp"])}
+        pkey = lambda ps: tuple(p if isinstance(p, str) else (p.kind, p.term) for p in ps)
+        alts.sort(key=lambda a: len(a[0]))
+        base_parts, base_guards = alts[0]
+        variants_out = [("without optional clause", base_parts, None)]
+        for parts, guards in alts[1:]:
+            sp = parts[len(base_parts):] if pkey(parts[:len(base_parts)]) == pkey(base_parts) else parts
+            guard = None
+            for gt, gv in guards:
+                if isinstance(gt, tuple) and gt and gt[0] == "call" and parse_callee(gt[1])[2] == "is_zero":
+                    guard = (gt, gv)
+            variants_out.append(("with optional clause", parts, (base, guard, sp)))
         for label, parts, extra in variants_out:
             toks, glued = tokenize(parts)
             txt = " ".join(x if isinstance(x, str) else "{" + x.kind + "}" for x in toks)
